@@ -597,10 +597,7 @@ func pruneArray(v any) any {
 		}
 
 		if va == nil {
-			if i > 0 {
-				r = append(r, a[:i]...)
-			}
-
+			r = append(make([]any, 0, len(a)-1), a[:i]...)
 			n = true
 		}
 	}
